@@ -13,7 +13,9 @@ from . import cachecommon as CC
 from . import common as C
 
 TRUSTED = CC.TRUSTED_COMMON + [
-    "C04: browsers are _ServiceBrowserBase objects driven through RecordManager (no event loop, no QueryScheduler.start); "
+    "C04: browsers are _ServiceBrowserBase objects (even ids) or a subclass running the real ServiceBrowser.async_update_records_complete "
+    "override with an inline queue instead of the delivery thread (odd ids), created by the real _async_start (asyncio.ensure_future replaced: "
+    "no event loop, no QueryScheduler.start) and cancelled by the real _async_cancel, each with a listener and a second plain handler; "
     "reschedule_ptr_first_refresh / cancel_ptr_refresh run but their effect (C10) is not observed here",
     "C04: 'quiescent' = between two ops of the history (asyncio runs each datagram / purge / API call to completion)",
 ]
@@ -75,6 +77,9 @@ def oracle(probes, ops, obs, res):
             active.pop(op[1], None)
             for key in [x for x in live if x[0] == op[1]]:
                 del live[key]
+        if [list(x[:4]) for x in o["cb"]] != [list(x) for x in o.get("cb2", [])] and o.get("cb2") is not None:
+            found.append((idx, "C04:second-handler", "the second handler of the browsers was called with %r, the listener with %r"
+                          % (o["cb2"][:4], [x[:4] for x in o["cb"]][:4])))
         counts = {"A": 0, "R": 0, "U": 0}
         for bid, ch, type_, name, seen, snap in o["cb"]:
             counts[ch] += 1
